@@ -25,6 +25,8 @@ def api_tasks(pid, tier, repo, seed, R):
     tasks = []
     for cname in concrete_classes(R):
         info = R["classes"][cname]
+        if API_PROPS[pid].get("json_only") and not info["supports_threading"]:
+            continue
         kind = info["kind"]
         table = api.api_of(kind)
         want = API_PROPS[pid]["methods"]
@@ -40,6 +42,20 @@ def api_tasks(pid, tier, repo, seed, R):
     return tasks
 
 
+EXPLAIN = {
+    "C09": "Lock DISCIPLINE, proved per function for all inputs: for every public mutator x JSON class x receiver role "
+           "(threading active) every access the call makes to the shared state of its tree (containers, the shared suspend "
+           "counter, the resource; callee footprints by contract) happens while the one lock of the root's file is held, and "
+           "that lock is not released between the first and the last access. The conclusion 'linearizable' additionally "
+           "rests on the monitor / two-phase-locking argument [M-2PL], which is not machine-checked, and on C01-C04 for the "
+           "sequential behaviour of each operation; the schedule space itself is never enumerated.",
+    "C14": "Same lock discipline extended to the read APIs: a read's load WRITES the shared tree and raises the shared "
+           "suspend counter, so it needs the file lock from load to read. Every read API violates it on the pinned tree by "
+           "design ('reads happen freely'); each is a KNOWN FINDING with a directed schedule replayed on the real code "
+           "(replay/witness/d16.py). [M-2PL] as for C09.",
+}
+
+
 def plan(pid, tier, repo, seed):
     R = setup_engine.reflect(repo)
     if pid in API_PROPS:
@@ -47,9 +63,9 @@ def plan(pid, tier, repo, seed):
         extra = EXTRA.get(pid)
         if extra:
             tasks.extend(extra(pid, tier, repo, seed, R))
-        return dict(tasks=tasks, level=LEVEL.get(pid, "proof"))
+        return dict(tasks=tasks, level=LEVEL.get(pid, "proof"), explanation=EXPLAIN.get(pid, ""))
     if pid in EXTRA:
-        return dict(tasks=EXTRA[pid](pid, tier, repo, seed, R), level=LEVEL.get(pid, "proof"))
+        return dict(tasks=EXTRA[pid](pid, tier, repo, seed, R), level=LEVEL.get(pid, "proof"), explanation=EXPLAIN.get(pid, ""))
     raise KeyError(f"no check is registered for property {pid}")
 
 
@@ -178,6 +194,8 @@ def c08_all(pid, tier, repo, seed, R):
     return c08_tasks(pid, tier, repo, seed, R) + [t for t in buffer_tasks(pid, tier, repo, seed, R, ("flush",)) if t["kind"] == "buffers"]
 
 
+API_PROPS["C09"] = dict(methods="mutator", title="lock discipline of mutators", json_only=True)
+API_PROPS["C14"] = dict(methods="all", title="lock discipline of reads and writes", json_only=True)
 API_PROPS["C16"] = dict(methods="all", title="values are copied in and out")
 API_PROPS["C11"] = dict(methods="mutator", title="forbidden data never gets in")
 def c02_tasks(pid, tier, repo, seed, R):
@@ -192,8 +210,23 @@ def c02_tasks(pid, tier, repo, seed, R):
     return tasks
 
 
+def c10_tasks(pid, tier, repo, seed, R):
+    tasks = def_tasks(pid, tier, repo, seed, R)
+    for c in concrete_classes(R):
+        info = R["classes"][c]
+        if info["isa"]["BufferedCollection"]:
+            tasks.append(dict(kind="locks", repo=repo, seed=seed, what="buffered-root-mutators", cname=c, props=[pid],
+                              threads=True, label=f"C10:buffered-root:{c}"))
+        if info["supports_threading"]:
+            for threads in ((True, False) if tier == "thorough" else (True,)):
+                tasks.append(dict(kind="locks", repo=repo, seed=seed, what="repoint", cname=c, props=[pid], threads=threads,
+                                  label=f"C10:repoint:{c}:threads={threads}"))
+    return tasks
+
+
 EXTRA = {p: def_tasks for p in DEFS_FOR}
 EXTRA["C02"] = c02_tasks
+EXTRA["C10"] = c10_tasks
 EXTRA["C16"] = c16_tasks
 EXTRA["C18"] = c18_tasks
 EXTRA["C11"] = c11_tasks
@@ -203,4 +236,4 @@ for _p in ("C05", "C06", "C07", "C15"):
     EXTRA[_p] = buffer_tasks
 EXTRA["C17"] = c17_tasks
 EXTRA["C19"] = c19_tasks
-LEVEL = {}
+LEVEL = {"C09": "other", "C14": "other"}
